@@ -306,24 +306,33 @@ main (int argc, char **argv)
 	}
       if (cmd == "H")
 	{
-	  // histories over one compiled query: H <seed> <hexquery> <hexP> [<hex other query>]
-	  // P yields the input stacks (at most three are used).  Every pull of every execution is
-	  // compared with a fresh parse-and-run on that input.
+	  // histories over one compiled query: H <seed> <hexquery> <hexP> [<hex other query>|- [<hex ELF path>]]
+	  // P yields the input stacks (at most three are used); with a path, P runs on the Dwarf value
+	  // of that file, so all executions share one Dwarf (and its caches).  Every pull of every
+	  // execution is compared with a fresh parse-and-run on that input — with a path, on the
+	  // input rebuilt over a freshly opened Dwarf.
 	  unsigned seed;
-	  std::string hq, hp, hother;
-	  is >> seed >> hq >> hp >> hother;
-	  std::string q = unhex (hq), p = unhex (hp), other = unhex (hother);
+	  std::string hq, hp, hother, hpath;
+	  is >> seed >> hq >> hp >> hother >> hpath;
+	  if (hother == "-")
+	    hother.clear ();
+	  std::string q = unhex (hq), p = unhex (hp), other = unhex (hother), path = unhex (hpath);
 	  cerr_capture cap;
 	  try
 	    {
 	      compiled cp = compile (p, true);
-	      std::vector <stack::uptr> ins;
-	      if (! run (cp, std::make_unique <stack> (), &ins))
-		throw std::runtime_error ("input program failed");
-	      if (ins.size () > 3)
-		ins.resize (3);
-	      if (ins.empty ())
-		ins.push_back (std::make_unique <stack> ());
+	      auto make_inputs = [&] ()
+		{
+		  std::vector <stack::uptr> ret;
+		  if (! run (cp, input_stack (path), &ret))
+		    throw std::runtime_error ("input program failed");
+		  if (ret.size () > 3)
+		    ret.resize (3);
+		  if (ret.empty ())
+		    ret.push_back (input_stack (path));
+		  return ret;
+		};
+	      std::vector <stack::uptr> ins = make_inputs ();
 	      auto fresh = [&] (stack const &in, std::string const &text)
 		{
 		  std::vector <std::string> ret;
@@ -348,10 +357,19 @@ main (int argc, char **argv)
 		};
 	      std::vector <std::vector <std::string>> ref;
 	      std::vector <std::string> in_before;
-	      for (auto &in: ins)
+	      for (size_t k = 0; k < ins.size (); ++k)
 		{
-		  ref.push_back (fresh (*in, q));
-		  in_before.push_back (show_stack (*in));
+		  if (path.empty ())
+		    ref.push_back (fresh (*ins[k], q));
+		  else
+		    {
+		      // a Dwarf nobody has looked at yet
+		      auto again = make_inputs ();
+		      if (again.size () != ins.size ())
+			throw std::runtime_error ("input program is not deterministic");
+		      ref.push_back (fresh (*again[k], q));
+		    }
+		  in_before.push_back (show_stack (*ins[k]));
 		}
 	      // the shared compiled query; optionally another query text is compiled before / after it
 	      std::unique_ptr <compiled> pre;
